@@ -10,7 +10,7 @@ from hypothesis.stateful import RuleBasedStateMachine, invariant, precondition, 
 
 from . import oracles as O
 from .engine import HarnessError, case_hash, run_given, run_machine, shard_seed
-from .props_sim import SPECS as SIM_SPECS, SimSpec, mix, brief
+from .props_sim import SPECS as SIM_SPECS, SimSpec, mix, brief, swarm
 from .scenario import scenarios
 
 SPECS = {}
@@ -550,7 +550,11 @@ class C15(SimSpec):
                 sc = json.loads(json.dumps(sc))
                 sc['delays'][f"{o['name']}:{o['wf']['nodes'][0]['id']}"] = 2
             return sc
-        return scenarios(delays=True, **kw).map(force)
+        # 'ontime': static plans whose workflow est is stated on the simulation clock, several observations well apart, so
+        # that a later workflow begins on time after an earlier workflow's delayed task has completed
+        ontime = dict(kw, delays=True, abs_est=True, algs=('dynamic', 'greedy'), min_obs=2, start_gaps=(2, 5, 10, 10),
+                      modes=('roomy',))
+        return mix((2, scenarios(delays=True, **kw)), (1, scenarios(**ontime)), (1, swarm(kw, delays=True))).map(force)
 
     def violations(self, tr):
         return O.C15_sim(tr)
@@ -761,7 +765,7 @@ class C16:
     @staticmethod
     def sim_strategy():
         def mk(t):
-            sc, u, ks = t
+            sc, u, ks, order = t
             sc = json.loads(json.dumps(sc))
             f, b = sc['machines'][0]['flops'], sc['machines'][0]['bw']
             sc['machines'] = [{'flops': f, 'bw': b} for _ in sc['machines']]          # homogeneous: runtime independent of placement
@@ -781,19 +785,21 @@ class C16:
             sc['cold'] = {'capacity': max(o['rate'] * o['duration'] for o in sc['obs']), 'rate': 1}
             sc['mode'] = 'roomy'
             sc['delays'] = {}
-            return {'sim': True, 'sc': sc, 'unit': u}
+            return {'sim': True, 'sc': sc, 'unit': u, 'order': order}
         base = scenarios(algs=('batch', 'queue'), modes=('roomy',), max_machines=4, max_obs=2, max_nodes=4, max_duration=3,
                          start_gaps=(0, 1, 2))
         # small custom factors keep the seconds-unit run short; the unit *spellings* are covered by the parse-level part
-        return st.tuples(base, st.sampled_from([2, 3, 5, 7]), st.lists(st.integers(1, 3), min_size=1, max_size=6)).map(mk)
+        return st.tuples(base, st.sampled_from([2, 3, 5, 7]), st.lists(st.integers(1, 3), min_size=1, max_size=6),
+                         st.sampled_from(['seq', 'built_first', 'built_first_rev'])).map(mk)
 
     def sim_body(self, case, state):
-        from .runner import run_scenario
+        from .runner import run_pair
         state.evaluations += 1
         sc, u = case['sc'], case['unit']
         uf = {'minutes': 60}.get(u, u)
-        a = run_scenario(dict(sc, unit='seconds'))
-        b = run_scenario(dict(sc, unit=u))
+        # both simulations live in one interpreter; they may both be built before either runs, in either order
+        a, b = run_pair(dict(sc, unit='seconds'), dict(sc, unit=u), case.get('order', 'seq'))
+        state.count(f"order={case.get('order', 'seq')}")
         out = []
         if a.status != 'completed' or b.status != 'completed':
             state.aborted += 1
@@ -1027,6 +1033,30 @@ class TierModel:
                         self.count('move_started_' + kind)
                         if o.total_data_size % self.rate:
                             self.count('size_not_multiple_of_rate')
+            elif kind in ('h2c', 'c2h') and not self.move.get('data_done'):
+                # a move is in flight and another one is requested whose destination certainly lacks room (free space <
+                # size): it must be refused and leave everything - including the move in flight, which observe() keeps
+                # judging step by step - as it was.  Requests that might be accepted are not issued: the code documents
+                # concurrent transfers as unsupported ("TODO Support multiple observation transfers").
+                src, dst = (self.hot, self.cold) if kind == 'h2c' else (self.cold, self.hot)
+                if src.observations['stored'] and dst.current_capacity < src.observations['stored'][-1].total_data_size:
+                    o = src.observations['stored'][-1]
+                    def state():
+                        return (self.hot.current_capacity, self.cold.current_capacity, self.names(self.hot), self.names(self.cold),
+                                getattr(self.hot.observations['transfer'], 'name', None),
+                                getattr(self.cold.observations['transfer'], 'name', None))
+                    before = state()
+                    proc = self.env.process(self.buf.move_hot_to_cold(0) if kind == 'h2c' else self.buf.move_cold_to_hot(0))
+                    self._settle()
+                    after = state()
+                    self.count('refused_request_during_move')
+                    if kind != self.move['dir']:
+                        self.count('refused_request_opposite_direction')
+                    if proc.is_alive or proc.value is not False:
+                        out.append(O.V('C18', 'accepted_without_room', f"{kind} of {o.name} ({o.total_data_size}) requested during the {self.move['dir']} of {self.move['name']} started although the destination has only {dst.current_capacity} free"))
+                        self.dead = True
+                    elif after != before:
+                        out.append(O.V('C18', 'refusal_changed_state', f"refused {kind} of {o.name} during the {self.move['dir']} of {self.move['name']}: {before} -> {after}"))
             elif kind == 'step':
                 for _ in range(op[1]):
                     self._settle()
@@ -1050,8 +1080,19 @@ def tier_history_strategy():
     op = st.one_of(st.tuples(st.just('store'), st.integers(1, 40)), st.just(('h2c',)), st.just(('c2h',)),
                    st.tuples(st.just('deposit'), st.integers(1, 12)), st.just(('schedule',)), st.just(('finish',)),
                    st.tuples(st.just('step'), st.integers(1, 6)), st.tuples(st.just('step'), st.integers(1, 6))).map(list)
-    return st.tuples(st.integers(5, 100), st.integers(5, 100), st.integers(1, 12), st.integers(1, 12),
+    free = st.tuples(st.integers(5, 100), st.integers(5, 100), st.integers(1, 12), st.integers(1, 12),
                      st.lists(op, min_size=2, max_size=30)).map(list)
+
+    def busy(t):
+        # two stored observations; the newer one is moved to a cold tier that cannot also take the older one, and the older
+        # one's move is requested while the first is in flight (and again afterwards)
+        s1, s2, slack, hr, cr, k, tail = t
+        cold_cap = s2 + min(slack, s1)
+        return [s1 + s2 + 5, cold_cap, hr, cr,
+                [['store', s1], ['store', s2], ['h2c'], ['step', k], ['h2c'], ['step', 1], ['h2c']] + tail]
+    directed = st.tuples(st.integers(2, 30), st.integers(2, 40), st.integers(0, 30), st.integers(1, 12), st.integers(1, 12),
+                         st.integers(1, 4), st.lists(op, max_size=8)).map(busy)
+    return st.one_of(free, free, free, directed)
 
 
 def run_tier_history(case):
@@ -1078,13 +1119,14 @@ class C18:
     cases = {'quick': 4000, 'thorough': 60000}
     technique = "model-based property testing: generated tier-operation histories on a real Buffer + exhaustive grid of single moves and round trips"
     rule = ("histories [store size | deposit unlisted data | schedule | finish | move hot->cold | move cold->hot | step k] on a real Buffer with generated capacities and both rate "
-            "orderings, one move at a time; thorough additionally enumerates the grid sizes 1..24 x hot rate 1..6 x cold rate 1..6 x "
+            "orderings, one move at a time plus requests that must be refused (destination free space < size) issued while a move is in flight, in either direction; thorough additionally enumerates the grid sizes 1..24 x hot rate 1..6 x cold rate 1..6 x "
             "{hot->cold, round trip} x {room, no room}; non-trivial = history with a started move where hot rate < cold rate or the size is "
             "not a multiple of the rate, or with a refused move; distinct = distinct canonical history JSON")
     level_text = ("exploration (single-move grid exhaustive in thorough): after every step hot free + cold free + stored data is constant and "
                   "what leaves one tier enters the other; each step moves exactly min(hot rate, cold rate, remaining); the move takes "
                   "ceil(size/min rate) transfer steps; afterwards the observation is stored in exactly the destination, both transfer slots "
-                  "are empty; a move without room returns False and changes nothing")
+                  "are empty; a move without room returns False and changes nothing - free space, stored lists and both transfer slots, also when "
+                  "another move is in flight, which goes on exactly as before")
     assumptions = ["observations are placed in the hot tier with the same two statements Buffer.ingest_data_stream uses "
                    "(process_incoming_data_stream + append to 'stored'); Buffer.run's tiering *policy* is not exercised here (see KF1)"]
 
@@ -1097,7 +1139,8 @@ class C18:
         started = m.classes.get('move_started_h2c', 0) + m.classes.get('move_started_c2h', 0)
         if hr < cr and started:
             state.count('moves_with_hot_slower')
-        if (started and (hr < cr or m.classes.get('size_not_multiple_of_rate'))) or m.classes.get('move_refused'):
+        if (started and (hr < cr or m.classes.get('size_not_multiple_of_rate'))) or m.classes.get('move_refused') \
+                or m.classes.get('refused_request_during_move'):
             state.nontrivial.add(case_hash(case))
             state.sample({'hot_cap': case[0], 'cold_cap': case[1], 'hot_rate': hr, 'cold_rate': cr, 'ops': m.ops[:20],
                           'end': {'hot_free': m.hot.current_capacity, 'cold_free': m.cold.current_capacity,
